@@ -1,5 +1,6 @@
 import SwcVerif.Gen.AlgoDsu
 import SwcVerif.Gen.AlgoTraverse
+import SwcVerif.Gen.AlgoSort
 import SwcVerif.Model.Dsu
 import SwcVerif.Model.Traverse
 /-! Driver side of the imperative translator: the definitions GENERATED from the current sources are run on the
@@ -39,8 +40,18 @@ def handleTrav (args : List String) : String :=
     | some (log, ret) => s!"{" ".intercalate (log.reverse.map Trav.Ev.show)} ret={ret} stack=0"
   | _, _, _ => "bad-args"
 
+/-- `gsort ids=.. pids=..` → `new_pids / indices` of the GENERATED `sort_nodes_impl` (`error` = any exception) -/
+def handleSort (args : List String) : String :=
+  match Proto.argInts args "ids", Proto.argInts args "pids" with
+  | some ids, some pids =>
+    match sort_nodes_impl (ids.length + 2) (ids, pids) with
+    | none => "error"
+    | some r => s!"{Proto.showInts r.1.2} / {Proto.showInts r.2}"
+  | _, _ => "bad-args"
+
 def handle (op : String) (args : List String) : String :=
   match op with
+  | "gsort" => handleSort args
   | "gdsu" => handleDsu args
   | "gtrav" => handleTrav args
   | _ => "bad-op"
